@@ -91,6 +91,9 @@ func genTree(r *e.RNG, depth, maxDepth, maxWidth int, leaf *c06Node, placeAt *in
 		} else if leaf != nil && *counter >= *placeAt {
 			n.C = append(n.C, *leaf)
 			*placeAt = 1 << 30
+		} else if r.Chance(0.25) {
+			// a harmless grant (of MsgSend, generic or with a spend limit) as sibling
+			n.C = append(n.C, c06Node{K: "grant", U: 2 + r.Intn(2)})
 		} else {
 			n.C = append(n.C, c06Node{K: "send"})
 		}
@@ -123,7 +126,11 @@ func (c06) Gen(w *e.World, r *e.RNG) e.Step {
 			case 1:
 				t.Msgs = append(t.Msgs, leaf) // blocked message at top level
 			default:
-				t.Msgs = append(t.Msgs, c06Node{K: "send"})
+				if r.Chance(0.4) {
+					t.Msgs = append(t.Msgs, c06Node{K: "grant", U: 2 + r.Intn(2)})
+				} else {
+					t.Msgs = append(t.Msgs, c06Node{K: "send"})
+				}
 			}
 		}
 		p, _ := json.Marshal(t)
@@ -134,6 +141,11 @@ func (c06) Gen(w *e.World, r *e.RNG) e.Step {
 		n := 1 + r.Intn(3)
 		for i := 0; i < n; i++ {
 			t.Ext = append(t.Ext, opts[r.Intn(len(opts))])
+		}
+		if r.Chance(0.25) {
+			// an otherwise valid Ethereum tx with something behind the Ethereum option
+			t.Msgs = []c06Node{{K: "eth"}}
+			t.Ext = []string{"eth", []string{"dynfee", "web3", "eth"}[r.Intn(3)]}
 		}
 		p, _ := json.Marshal(t)
 		return e.Step{K: "tx", Op: "ext", A: a, B: w.AnyAcct(r), P: p}
@@ -198,6 +210,11 @@ func (t c06Tx) forbidden() (bool, string) {
 				return true, "option-unknown-to-the-cosmos-route"
 			}
 		}
+	}
+	// The Ethereum and the EIP-712 route are selected by their one option and know
+	// no other: anything that rides along behind it is unknown to them.
+	if len(exts) > 1 && (exts[0] == "eth" || exts[0] == "web3") {
+		return true, "extra-option-on-" + exts[0] + "-route"
 	}
 	ethRoute := len(exts) > 0 && exts[0] == "eth"
 	if ethRoute {
@@ -327,6 +344,17 @@ func (p c06) Exec(w *e.World, st *e.Step) *e.Violation {
 			em = append(em, m.(*evmtypes.MsgEthereumTx))
 		}
 		bz, err = w.WrapEthMsgs(em...)
+	case len(exts) > 1 && exts[0] == "eth" && allEth:
+		// a well-formed Ethereum envelope with further options behind the Ethereum one
+		var em []*evmtypes.MsgEthereumTx
+		for _, m := range msgs {
+			em = append(em, m.(*evmtypes.MsgEthereumTx))
+		}
+		var extra []*codectypes.Any
+		for _, x := range exts[1:] {
+			extra = append(extra, extAny(x))
+		}
+		bz, err = w.WrapEthMsgsExt(extra, em...)
 	case exts == nil && t.Route == "web3":
 		bz, err = w.BuildCosmosTx(a, e.TxOpts{EIP712: true, Gas: 1_500_000}, msgs...)
 		if err == nil {
